@@ -68,10 +68,13 @@ func main() {
 				b++
 			}
 		}
+		if strings.HasPrefix(n, "split-orders:") {
+			b = 8 // one deviation per position of the priority order: nothing is cut off for discs of up to 8 triangles
+		}
 		groups[b] = append(groups[b], n)
 	}
 	var all []schedrun.Result
-	for b := 0; b <= 2; b++ {
+	for b := 0; b <= 8; b++ {
 		if len(groups[b]) == 0 {
 			continue
 		}
